@@ -123,8 +123,28 @@ def run_stream(workdir, stream, seed, count, thorough, env=None, tag=""):
     os.makedirs(d)
     cmd = [HBIN, "gen", stream, str(seed), str(count), d] + (["thorough"] if thorough else [])
     t0 = time.time()
-    rc, out = sh(cmd, env=env, timeout=3000)
+    hist_log = os.path.join(d, "history.log")
+    env2 = dict(env or {})
+    env2["VERIF_HISTORY_LOG"] = hist_log
+    rc, out = sh(cmd, env=env2, timeout=3000)
     info = {"stream": stream, "dir": d, "rc": rc, "gen_s": round(time.time() - t0, 2), "stats": {}, "lines": 0, "gen_out": out[-2000:]}
+    if rc != 0 and os.path.exists(hist_log):
+        # the generator process died (an abort in the implementation cannot be caught in-process): the history it was
+        # in is the last one logged; replay that history alone to confirm it dies by itself
+        try:
+            last = open(hist_log).read().strip().split("\n")[-1].split(" ")
+            fork_seed = last[1]
+            rd = os.path.join(d, "crash-replay")
+            os.makedirs(rd, exist_ok=True)
+            env3 = dict(env or {})
+            env3["VERIF_HISTORY_RNG"] = fork_seed
+            env3["VERIF_PANIC_VERBOSE"] = "1"
+            rc2, out2 = sh([HBIN, "gen", stream, str(seed), "1", rd] + (["thorough"] if thorough else []), env=env3, timeout=900)
+            info["crash"] = {"history_index": last[0], "history_fork_seed": fork_seed, "replays_alone": rc2 != 0, "replay_rc": rc2,
+                             "replay_cmd": "VERIF_HISTORY_RNG=%s VERIF_PANIC_VERBOSE=1 %s gen %s %s 1 <dir>%s" % (fork_seed, HBIN, stream, seed, " thorough" if thorough else ""),
+                             "replay_output_tail": out2[-1500:]}
+        except Exception as ex:
+            info["crash"] = {"error": str(ex)}
     for line in out.splitlines():
         line = line.strip()
         if line.startswith("{"):
@@ -251,7 +271,7 @@ def run_check(prop, tier):
             for i, threads in enumerate(s.get("rayon", []) if thorough else s.get("rayon", [])[:2]):
                 runs.append((name, max(1, count // 3), {"RAYON_NUM_THREADS": str(threads)}, "-t%s" % threads))
         # the state streams are sharded over the cores (each shard has its own derived seed and directory)
-        VMS = ("codec", "weight", "exec", "feemult", "confirm", "merkle")
+        VMS = ("codec", "weight", "exec", "feemult", "confirm")
         sharded = []
         for (name, count, env, tag) in runs:
             if thorough:
@@ -269,7 +289,12 @@ def run_check(prop, tier):
         for (name, count, env, tag), info in zip(runs, infos):
             stream_infos.append({k: info[k] for k in ("stream", "rc", "lines", "gen_s", "driver_rc") if k in info} | {"tag": tag, "driver_s": info.get("driver_s")})
             if info["rc"] != 0 or info.get("driver_rc") not in (0,):
-                violations.append({"kind": "stream-crashed", "stream": name + tag, "detail": (info.get("gen_out", "") + str(info.get("driver_err", "")))[-1500:]})
+                v = {"kind": "stream-crashed", "stream": name + tag, "detail": (info.get("gen_out", "") + str(info.get("driver_err", "")))[-1500:]}
+                if info.get("crash", {}).get("replays_alone"):
+                    # a concrete failing input: this one generated history kills the process running the real code
+                    v["kind"] = "implementation-aborts"
+                    v.update(info["crash"])
+                violations.append(v)
                 continue
             ops, impl, model = load_lines(info)
             traces += len(ops)
@@ -306,6 +331,10 @@ def run_check(prop, tier):
                         continue
                     if j.get("prop") == prop and not j.get("ok", True):
                         oracle_fail += 1
+                        ln = j.get("line")
+                        if isinstance(ln, int) and 0 <= ln < len(ops):
+                            j["pow_panics"] = "yes" if re.search(r"p:[0-9a-f]+:[0-9a-f]+:\d+:\d+:[0-9a-f]+:panics", ops[ln]) else "no"
+                            j["opkind"] = ops[ln].split(" ")[0]
                         j.update({"kind": "oracle:fact:" + j.get("check", ""), "stream": name + tag})
                         violations.append(j)
             if len(samples) < 4 and ops:
@@ -383,7 +412,7 @@ def run_check(prop, tier):
     if real:
         exit_code = 1
         # group: one replay file per violation kind (first few)
-        has_input = any(v["kind"].startswith("oracle") or v["kind"] in ("model-vs-impl", "probe") for v in real)
+        has_input = any(v["kind"].startswith("oracle") or v["kind"] in ("model-vs-impl", "probe", "implementation-aborts") for v in real)
         shown = 0
         for v in real:
             if shown >= 5:
